@@ -61,9 +61,6 @@ func (wl *WhopLoc) Continue(s *Scope, args List, depth int) Object {
 		}
 		ws := s.NewScope()
 		ws.Let("~whopper-location~", &WhopLoc{Method: wl.Method, Current: i, Args: args})
-		if lam, ok := wrap.(*Lambda); ok {
-			lam.Closure = ws
-		}
 		return wrap.Call(ws, args, depth+1)
 	}
 	return wl.Method.InnerCall(s, args, depth)
